@@ -10,6 +10,7 @@ import (
 	"flag"
 	"fmt"
 	"os"
+	"runtime/debug"
 	"sort"
 	"strconv"
 	"strings"
@@ -204,7 +205,7 @@ func Main(t *testing.T, p Prop) {
 
 	prop := func(rt *rapid.T) {
 		sc := p.Draw(rt)
-		o := p.Run(t, sc, false)
+		o := safeRun(p, t, sc, false)
 		lastSc, lastOut = sc, o
 		if shrinking {
 			rep.ShrinkRuns++
@@ -274,7 +275,7 @@ func Main(t *testing.T, p Prop) {
 				os.Exit(2)
 			}
 			// re-run the minimal scenario with the full log kept
-			o := p.Run(t, lastSc, true)
+			o := safeRun(p, t, lastSc, true)
 			scb, _ := json.Marshal(lastSc)
 			rf := &ReplayFile{Property: p.ID, Class: o.Class, Msg: o.Msg, Seed: rs, LogHash: o.LogHash, Scenario: scb, Log: o.Log}
 			sum := sha256.Sum256([]byte(strings.Join(o.Log, "\n")))
@@ -291,7 +292,7 @@ func Main(t *testing.T, p Prop) {
 		// self-check: re-execute the first scenarios after everything else ran; a different event log means
 		// state leaks from one run into the next (replays would then depend on history)
 		for i := len(keep) - 1; i >= 0; i-- {
-			o := p.Run(t, keep[i].sc, false)
+			o := safeRun(p, t, keep[i].sc, false)
 			rep.Reruns++
 			if o.LogHash != keep[i].hash {
 				rep.RerunDiffs++
@@ -300,6 +301,27 @@ func Main(t *testing.T, p Prop) {
 	}
 	rep.WallS = time.Since(start).Seconds()
 	writeReport(out, rep, hashes, pairs)
+}
+
+// safeRun executes one scenario. The sequential harnesses call the code under test on their own goroutine, so a
+// panic of that code escapes p.Run: it is a finding about the code (reported as class "panic" with the value and the
+// stack), not trouble of the machinery. (Inside a simulation, task panics are collected by simrt and reported the same way.)
+func safeRun(p Prop, t *testing.T, sc interface{}, keepLog bool) (o *Outcome) {
+	defer func() {
+		if r := recover(); r != nil {
+			val := fmt.Sprint(r)
+			sum := sha256.Sum256([]byte("panic:" + val))
+			o = &Outcome{Class: "panic", Msg: "panic escaped the scenario: " + val, LogHash: hex.EncodeToString(sum[:8]),
+				Counts: map[string]int{}, Nontrivial: true}
+			if keepLog {
+				o.Log = append([]string{"panic: " + val}, strings.Split(string(debug.Stack()), "\n")...)
+				if len(o.Log) > 60 {
+					o.Log = o.Log[:60]
+				}
+			}
+		}
+	}()
+	return p.Run(t, sc, keepLog)
 }
 
 func writeReport(out string, rep *WorkerReport, hashes map[string]struct{}, pairs map[uint64]struct{}) {
@@ -346,7 +368,7 @@ func replay(t *testing.T, p Prop, path string) {
 		fmt.Printf("MACHINERY bad scenario in replay file: %v\n", err)
 		os.Exit(2)
 	}
-	o := p.Run(t, sc, true)
+	o := safeRun(p, t, sc, true)
 	res := map[string]interface{}{"class": o.Class, "msg": o.Msg, "log_hash": o.LogHash,
 		"same_class": o.Class == rf.Class, "same_hash": o.LogHash == rf.LogHash, "log": o.Log}
 	jb, _ := json.Marshal(res)
